@@ -7,7 +7,7 @@ PROP = dict(
     rule="primitives EXHAUSTIVELY over the widths: UintN and IntN for every N in 1..64 and 128/256/257 at "
          "0/1/max/top-bit/min/-1 plus random values, VarUInteger n for every n in 1..32 at every byte length "
          "0..n-1 (minimal and all-ones), all BitsN, Unary, Grams incl. values >= 2^63; the structures with a "
-         "transcribed schema (38: Grams, CurrencyCollection with non-empty extra-currency dictionaries, MsgAddress, "
+         "transcribed schema (40: Grams, CurrencyCollection with non-empty extra-currency dictionaries, MsgAddress, "
          "CommonMsgInfo, TickTock, StateInit with libraries, Message, wallet v3/v4 bodies, SignedMsgBody, the 20 "
          "account / transaction declarations from StorageUsed to Transaction, OutList, W5ExtendedAction(s), wallet "
          "v5r1 bodies, highload v2 body) on random in-domain values (all constructors, optionals "
@@ -29,8 +29,9 @@ PROP = dict(
         "message~body, extendedactions~extended, boundedqueryid~query_id, and the three anonymous schema fields "
         "StateInit / Vm / Msgs)",
         "sources of the wallet schemas: abi/schemas/wallets.xml of the repository (v5r1 signed / extension "
-        "bodies, highload v2) and the contract's action list; wallet v5 BETA has no schema text in reach and is "
-        "not transcribed",
+        "bodies, highload v2) and the contract's action list; wallet v5 BETA: no schema text is shipped, the "
+        "layout is transcribed from the repository's own writer (wallet/wallet_v5_beta.go createSignedMsgBodyCell) "
+        "and reader (wallet.MessageV5Beta); go.w5beta checks on every run that the two agree cell for cell",
     ],
     assumptions=[
         "ideal bit-list level (C06 owns the refinement of boc.BitString); minBitsRequired's de Bruijn table is "
@@ -42,14 +43,14 @@ PROP = dict(
         "shared between the spec node and the model (hlToDict)",
     ],
     partial=[
-        "impl_eq_spec_<S> exists for 38 structures: TickTock, ExtraCurrencyCollection, CurrencyCollection, Grams, "
+        "impl_eq_spec_<S> exists for 40 structures: TickTock, ExtraCurrencyCollection, CurrencyCollection, Grams, "
         "MsgAddress (descriptor and hand-written codec), CommonMsgInfo, StateInit, Message, wallet v3 / v4 bodies, "
         "SignedMsgBody; StorageUsed, StorageExtraInfo, StorageInfo, AccountState, AccountStorage, ExistedAccount, "
         "Account, ShardAccount, AccountStatus, AccStatusChange, ComputeSkipReason, TrStoragePhase, TrCreditPhase, "
         "TrComputePhase, TrActionPhase, TrBouncePhase, SplitMergeInfo, TransactionDescr (7 constructors), BurningConfig, MsgMetadata, "
-        "HASH_UPDATE, Transaction; OutList, W5ExtendedAction, wallet v5r1 bodies, highload v2 body; HashmapE "
+        "HASH_UPDATE, Transaction; OutList, W5ExtendedAction, wallet v5r1 and v5 beta bodies (+ WalletV5ID), highload v2 body; HashmapE "
         "generically (impl_eq_spec_hashmapE). Outside: block-level structures (BlockInfo, ValueFlow, ShardState, "
-        "…: decode models only), wallet v5 beta, config parameters, abi message bodies",
+        "…: decode models only), config parameters other than 5, abi message bodies",
         "reencode_real is proved for cells produced by the encoder; for chain cells it is checked (go.redec on "
         "every real transaction and message), not proved (see C03 ReencodeHash)",
         "the transcription of block.tlb is trusted",
@@ -63,7 +64,7 @@ PROP = dict(
                "encoder appends exactly the chunk the schema prescribes, for every "
                "in-domain value (induction on descriptors; 17 hand-written codecs, dictionaries, reference chains "
                "and the highload payload included); impl_eq_spec_<S> is "
-               "decided by the kernel for 38 structures on the descriptors regenerated from the Go source on "
+               "decided by the kernel for 40 structures on the descriptors regenerated from the Go source on "
                "every run (a swapped field / wrong width / wrong tag breaks it); ext_message_layout for "
                "ton.CreateExternalMessage. Tie: ~11 000 lines per quick run where the cell of the real "
                "tlb.Marshal must equal the spec encoder's (exhaustive over primitive widths and VarUInteger "
